@@ -76,15 +76,35 @@ def oracle(rng, tier):
                 ip = (pv.Permeance(0.03), pv.Permeance(0.001)) if rng.random() < 0.6 else None
                 old = PVM.find_best_fit
                 PVM.find_best_fit = po.fake_find_best_fit
+                wlo = min(w, 0.6)
+                # the composition range may be (nearly) exhausted by the requested steps, in either direction: both
+                # encodings of the same start must then agree on raising as well
+                steps = rng.choice([4, 4, 8, 12])
+                delta = rng.choice([0.05, (rng.uniform(0.8, 1.15) - wlo) / steps, -(wlo - rng.uniform(-0.15, 0.2)) / steps])
+                case.update(steps=steps, delta=delta, start_w=wlo)
+
+                def run_ni(c0):
+                    try:
+                        return pvo.non_ideal_diffusion_curve(cs, T, c0, delta, steps, Tp, pp, ip)
+                    except po.ACCEPTABLE as e:
+                        return type(e).__name__
                 try:
-                    wlo = min(w, 0.6)
-                    a = pvo.non_ideal_diffusion_curve(cs, T, pv.Composition(p=wlo, type='weight'), 0.05, 4, Tp, pp, ip)
-                    b = pvo.non_ideal_diffusion_curve(cs, T, pv.Composition(p=wlo, type='weight').to_molar(m), 0.05, 4, Tp, pp, ip)
+                    a = run_ni(pv.Composition(p=wlo, type='weight'))
+                    b = run_ni(pv.Composition(p=wlo, type='weight').to_molar(m))
                 finally:
                     PVM.find_best_fit = old
-                ok = all(close_seq(x, y, 1e-6) for x, y in zip(a.partial_fluxes, b.partial_fluxes)) and \
+                if isinstance(a, str) or isinstance(b, str):
+                    ok = isinstance(a, str) and isinstance(b, str)
+                    detail = 'non-ideal curve from w=%r, %d steps of %r: mass-fraction start %s, mole-fraction start %s' % (
+                        wlo, steps, delta, a if isinstance(a, str) else 'returned %d points' % len(a.feed_compositions),
+                        b if isinstance(b, str) else 'returned %d points' % len(b.feed_compositions))
+                    case['ip'] = ip is not None
+                    yield {'kind': '%s:%s' % (entry, mode), 'case': case, 'ok': ok, 'detail': '' if ok else detail, 'nontrivial': False}
+                    continue
+                ok = len(a.partial_fluxes) == len(b.partial_fluxes) and all(close_seq(x, y, 1e-6) for x, y in zip(a.partial_fluxes, b.partial_fluxes)) and \
                     all(rel_close(x[0].value, y[0].value, 1e-6) and rel_close(x[1].value, y[1].value, 1e-6) for x, y in zip(a.permeances, b.permeances))
-                detail = 'non-ideal curve (initial permeances %s) differs between bases: last fluxes %r vs %r' % ('given' if ip else 'absent', a.partial_fluxes[-1], b.partial_fluxes[-1])
+                detail = 'non-ideal curve (initial permeances %s) differs between bases: %d vs %d points, last fluxes %r vs %r' % (
+                    'given' if ip else 'absent', len(a.partial_fluxes), len(b.partial_fluxes), a.partial_fluxes[-1], b.partial_fluxes[-1])
                 case['ip'] = ip is not None
             elif entry == 'process':
                 cfg = po.random_config(rng)
